@@ -26,12 +26,19 @@ from .. import common as C
 from .. import progen
 from ..common import Corr, Violation
 
-TRANSLATORS = ['hook_order_child', 'skip_list']
+TRANSLATORS = ['hook_order_child', 'skip_list', 'bdb_funs']
 
 TRUSTED_BASE = [
     'translators translate/hook_order_child.py (registration order per trace_modules, trylast markers, the three stateless '
     'filter decision functions, pinned digest of FilerByModule, shape of GlobalTraceFunc.global_trace_func, firstresult spec) and '
     'translate/skip_list.py (MODULES_TO_SKIP)',
+    'translator translate/bdb_funs.py (ast -> Gen/BdbFuns.v, terms of Bdb/Syntax.v): the installed CPython bdb.py (Bdb.trace_dispatch, '
+    'dispatch_line/call/return/exception, stop_here, _set_stopinfo, set_step/next/return/until) and, in /repo, CustomizedPdb (__init__, '
+    'set_continue, cmdloop, list of overrides), factory.CmdloopHook, every `filter` hookimpl of filter.py with its helpers, register(), '
+    'GlobalTraceFunc.global_trace_func, WithContext._local_trace, the thread guard of sys_trace; trusted to emit what the source says.  '
+    'Interpreter coq/theories/Bdb/Interp.v (Python object model for frames/None/ints, pluggy call order, pdb.py between user_* and the '
+    'set_* command are given their meaning by hand there); Bdb/Tie.v proves interpretation = Bdb/Model.v for all states and events '
+    '(C05_tie_*)',
     'hand-written model coq/theories/Bdb/Model.v of bdb.Bdb / pdb.Pdb 3.12.1 stop logic, CustomizedPdb, WithContext, pluggy firstresult '
     'LIFO/trylast call order, FilerByModule.filter, CPython trace_trampoline (None leaves f_trace); compared with the real code on every run',
     'reference recorder harness/reference.py (raw sys.settrace stream per thread/task) and harness/child.py',
